@@ -9,7 +9,17 @@ for S in /verif/seeded/${1}*; do
   [ -f $S/patch.diff ] || continue
   git -C $WT checkout -q -- . ; git -C $WT clean -fdq
   /venv/bin/python $S/demo.py $WT >/dev/null 2>&1; P0=$?
-  if ! git -C $WT apply $S/patch.diff 2>/dev/null; then echo "$N APPLY-FAILED (tree changed since the seed was made)"; continue; fi
+  if ! git -C $WT apply $S/patch.diff 2>/dev/null; then
+    echo "$N APPLY-FAILED (tree changed since the seed was made)"
+    /venv/bin/python - "$S" <<'PY'
+import json, sys, os
+p = os.path.join(sys.argv[1], 'meta.json')
+m = json.load(open(p)) if os.path.exists(p) else {}
+m.update(detected=False, check_output='patch.diff does not apply to the current /repo HEAD: rebase it (see notes.md of other seeds) and re-run')
+json.dump(m, open(p, 'w'), indent=1)
+PY
+    continue
+  fi
   T=$(cd $WT && PYTHONPATH=$WT/src /venv/bin/python -m pytest -q -p no:cacheprovider --continue-on-collection-errors 2>&1 | grep -v condarc | tail -1)
   /venv/bin/python $S/demo.py $WT >/dev/null 2>&1; P1=$?
   OUT=$(cd /verif && VERIF_REPO=$WT ./bin/check $ID quick 2>/dev/null | grep -E "^(OK|VIOLATION)" | tail -3)
@@ -19,7 +29,10 @@ for S in /verif/seeded/${1}*; do
 import json, sys, os
 S, ID, N, V, OUT, P0, P1, T = sys.argv[1:9]
 notes = open(os.path.join(S, 'notes.md')).read() if os.path.exists(os.path.join(S, 'notes.md')) else ''
-json.dump(dict(property=ID, name=N, needs_to_manifest=notes[:1500],
+import subprocess
+head = subprocess.run(['git', '-C', '/repo', 'rev-parse', '--short', 'HEAD'], capture_output=True, text=True).stdout.strip()
+vhead = subprocess.run(['git', '-C', '/verif', 'rev-parse', '--short', 'HEAD'], capture_output=True, text=True).stdout.strip()
+json.dump(dict(property=ID, name=N, repo_commit=head, verif_commit_at_least=vhead, needs_to_manifest=notes[:1500],
                confirmed=dict(tests_with_patch=T.strip(), demo_pristine_exit=int(P0), demo_patched_exit=int(P1),
                               how="scratch git worktree of /repo HEAD: demo.py; git apply patch.diff; pytest; demo.py"),
                ran=f"./bin/check {ID} quick against the patched tree (VERIF_REPO=<worktree>; equivalent to git -C /repo apply patch.diff; ./bin/check {ID} quick; git -C /repo checkout -- .)",
